@@ -485,10 +485,27 @@ def emit_placement(sc, ops, tail, saves, tagbase, name="P", dump="xdump", fin=Fa
 
 # ---------------------------------------------------------------------------
 # persisted-equivalence: canonical form of an xdump for comparing a live instance with a reloaded one
-def canon_dump(s, drop_final=False):
+def _relax_sp_level(m):
+    """validation-level memo of a valid SP block that is NOT on the best chain: CONNECTED (2) .. CAN_BE_APPLIED (4)
+    only records whether fork resolution has ever applied the branch while comparing it"""
+    st = int(m.group(2))
+    if not (st & 512) and not (st & (32 | 64 | 128)) and (st & 7) in (2, 3, 4):
+        st = (st & ~7) | 2
+    return "%s_st=%d" % (m.group(1), st)
+
+
+def canon_dump(s, drop_final=False, relax_sp_level=False):
     """set of observation lines with the memory-only marks removed:
        ' D' (dirty: reset by load / set again by loadTip's setFlag+raiseValidity) is dropped;
-       ' F' (finalized, memory only: after a load only the bootstrap root is final) is dropped iff drop_final"""
+       ' F' (finalized, memory only: after a load only the bootstrap root is final) is dropped iff drop_final;
+       relax_sp_level (only for two instances that have both EXECUTED further operations, never for the comparison
+       right after a load): BaseBlockTree::doUpdateTips() runs fork resolution over `tips_`, an
+       std::unordered_set<index_t*> - its iteration order depends on the addresses of the block indices, i.e. differs
+       between any two instances. After the VBK/BTC best branch is removed (its ALT blocks are unapplied), a stale
+       valid branch that happens to be visited BEFORE the eventual winner is applied once (raiseValidity ->
+       BLOCK_CAN_BE_APPLIED) and then loses; visited after the winner it is compared without being applied and
+       stays BLOCK_CONNECTED. Best chains, flags, payloads and every answer are the same; only this memo differs,
+       so it is not part of the equivalence of two RUNNING instances."""
     out = set()
     for l in s.split(";"):
         if not l:
@@ -497,19 +514,21 @@ def canon_dump(s, drop_final=False):
         l = re.sub(r"_D(?=_|$)", "", l)
         if drop_final:
             l = re.sub(r"_F(?=_|$)", "", l)
+        if relax_sp_level and l[:4] in ("VBK_", "BTC_"):
+            l = re.sub(r"^((?:VBK|BTC)_[vb]\d+_h=\d+)_st=(\d+)", _relax_sp_level, l)
         out.add(l)
     return out
 
 
-def diff_dumps(a, b, drop_final=False):
-    A, B = canon_dump(a, drop_final), canon_dump(b, drop_final)
+def diff_dumps(a, b, drop_final=False, relax_sp_level=False):
+    A, B = canon_dump(a, drop_final, relax_sp_level), canon_dump(b, drop_final, relax_sp_level)
     return sorted(A - B), sorted(B - A)
 
 
-def _keyed(dump):
+def _keyed(dump, relax_sp_level=False):
     """xdump -> ({block key 'VBK_v7': line}, {other lines}) with the memory-only D / F marks removed"""
     blocks, other = {}, set()
-    for l in canon_dump(dump, drop_final=True):
+    for l in canon_dump(dump, drop_final=True, relax_sp_level=relax_sp_level):
         w = l.split("_")
         if len(w) > 2 and w[0] in ("ALT", "VBK", "BTC") and re.match(r"^[avb]\d+$", w[1]) and w[2].startswith("h="):
             blocks[w[0] + "_" + w[1]] = l
@@ -525,8 +544,8 @@ def diff_dumps_fin(live, rel, after_load):
     payload ids, endorsements, refcount/refs, chain work); right after the load the reloaded instance must hold
     every block the live one holds; the best tips of all three trees must be equal; a tree whose root is the same in
     both is compared completely (tips_, applied count, payload indices). -> (live_only, reloaded_only)"""
-    bl, ol = _keyed(live)
-    br, orr = _keyed(rel)
+    bl, ol = _keyed(live, relax_sp_level=not after_load)
+    br, orr = _keyed(rel, relax_sp_level=not after_load)
     d1, d2 = [], []
     for k in sorted(set(bl) & set(br)):
         if bl[k] != br[k]:
